@@ -14,6 +14,7 @@ upd() { # $1 = generated file, $2 = destination
 ./.build/target/release/pm impls > lean/PasetoModel/Extracted/Impls.lean.new && upd lean/PasetoModel/Extracted/Impls.lean.new lean/PasetoModel/Extracted/Impls.lean
 python3 tools/apiscan.py > lean/PasetoModel/Extracted/Api.lean.new && upd lean/PasetoModel/Extracted/Api.lean.new lean/PasetoModel/Extracted/Api.lean
 python3 tools/ffiscan.py > lean/PasetoModel/Extracted/Ffi.lean.new 2>/dev/null && upd lean/PasetoModel/Extracted/Ffi.lean.new lean/PasetoModel/Extracted/Ffi.lean
+python3 tools/b64scan.py > lean/PasetoModel/Extracted/B64Src.lean.new 2>/dev/null && upd lean/PasetoModel/Extracted/B64Src.lean.new lean/PasetoModel/Extracted/B64Src.lean
 python3 tools/srcscan.py > lean/PasetoModel/Extracted/Source.lean.new && upd lean/PasetoModel/Extracted/Source.lean.new lean/PasetoModel/Extracted/Source.lean
 python3 tools/featscan.py > lean/PasetoModel/Extracted/Features.lean.new && upd lean/PasetoModel/Extracted/Features.lean.new lean/PasetoModel/Extracted/Features.lean
 (cd lean && lake build PasetoModel pmdriver 2>&1 | grep -v "^trace\|^warning\|Hint\|\[apply\]\|^Note\|^$\|^  " | tail -15)
